@@ -10,7 +10,7 @@ from __future__ import annotations
 import ast
 import string
 
-from ..flow import flow_of, path_of
+from ..flow import deref, flow_of, path_of
 from ..loader import FUNC, AnalysisError, const_fold, dotted, last_name, loc, short, walk_local
 from ..cfg import cfg_of
 from ..util import ASE, CP2K, ENGBASE, ENGPARTS, GROMACS, LAMMPS, TURTLE, kwarg, loops_of, oriented
@@ -204,7 +204,8 @@ def r192(ctx):
         ctx.bad(rid, wr, f"xyz: writer formats {nf} fields / {len(call[0].args) if call else '?'} values but the reader maps {len(keys) if keys else '?'} columns")
     # column order: name, pos x y z, vel x y z
     if call:
-        a = [ast.unparse(x) for x in call[0].args]
+        wfl_ = flow_of(wr)
+        a = [ast.unparse(deref(wfl_, x, wfl_.cfg.node_of(call[0]))[0]) for x in call[0].args]
         wp = [p.arg for p in wr.args.args]  # (filename, pos, vel, names, box, ...)
         lv = None
         for L in loops_of(call[0]):
